@@ -33,6 +33,16 @@ def run(ctx):
                    ('config.ParseContext._register', 'dynamic registration')):
     fn = ctx.func(q)
     calls = [c for c in walk_local(fn.node) if isinstance(c, ast.Call) and prog.resolve_call(fn, c) == MK]
+    if not calls:
+      # delegation to another of the three entry points (which is checked in its own right) with the object as first argument
+      entry = {q2 for q2, _l in (('config.external_configurable', ''), ('config.ParseContext._register', ''))} - {q}
+      deleg = [c for c in walk_local(fn.node) if isinstance(c, ast.Call) and prog.resolve_call(fn, c) in entry
+               and c.args and isinstance(c.args[0], ast.Name)]
+      if deleg:
+        ctx.hold('C13.identity', construct(fn), '%s registers through %s (checked there), handing it the object itself' % (label, u(deleg[0].func)),
+                 fn.loc(deleg[0]), instance=label)
+        ctx.hold('C13.identity', construct(fn), '%s registers the object itself' % label, fn.loc(deleg[0]), instance=label + ':object')
+        continue
     ctx.check(bool(calls) and all(avoid_flag(c) for c in calls), 'C13.identity', construct(fn),
               '%s registers without mutating the class (avoid_class_mutation=True)' % label,
               '%s no longer passes avoid_class_mutation=True: the original class\'s __init__/__new__ would be replaced in place' % label,
@@ -166,6 +176,15 @@ def run(ctx):
   ok = bool(swaps) and all(any(fct[0] == 'c' and fct[2] is True and fct[1].replace(' ', '') == '%s.__bases__==(cls,)' % mcw.params[0] for fct in facts2[n.id]) for n in swaps)
   rv = [r for r in returns_of(mcw) if r.value is not None]
   ok = ok and len(rv) == 1 and isinstance(rv[0].value, ast.Call) and u(rv[0].value.func) == 'cls_meta.__call__' and u(rv[0].value.args[0]) == mcw.params[0]
+  if not ok and not swaps and len(rv) == 1 and isinstance(rv[0].value, ast.Call) and u(rv[0].value.func) == 'cls_meta.__call__' and rv[0].value.args:
+    # the same choice written as an expression: cls_meta.__call__(cls if P.__bases__ == (cls,) else P, ...)
+    from ..lib import expand_expr, facts_at
+    a0 = expand_expr(facts_at(g2, facts2, rv[0]) or frozenset(), rv[0].value.args[0])
+    P = mcw.params[0]
+    if isinstance(a0, ast.IfExp):
+      t = u(a0.test).replace(' ', '')
+      ok = (t == '%s.__bases__==(cls,)' % P and u(a0.body) == 'cls' and u(a0.orelse) == P) or \
+          (t in ('%s.__bases__!=(cls,)' % P, 'not%s.__bases__==(cls,)' % P) and u(a0.orelse) == 'cls' and u(a0.body) == P)
   ctx.check(ok, 'C13.metadata', construct(mcw), 'constructing Gin\'s direct subclass yields an instance of the original class itself',
             'the metaclass call wrapper no longer substitutes the original class for Gin\'s direct subclass', mcw.loc(), instance='instance-of-original')
   gd, fd = std_facts(prog, dec)
